@@ -13,7 +13,7 @@ CONSTANTS Depth,      \* inbound messages per session
 VARIABLE hist
 gvars == <<vars, hist>>
 
-State == [ready |-> ready, verified |-> verified, closed |-> closed \/ desync, hsComplete |-> hsComplete]
+State == [ready |-> ready, verified |-> verified, closed |-> closed \/ desync, hsComplete |-> hsComplete, deaf |-> deaf]
 Entry(m) == [msg |-> m, out |-> out, sinks |-> sinks, st |-> State]
 
 HsPending == ~hs.done /\ ~closed /\ Len(q) > 0
